@@ -37,7 +37,7 @@ def mutate(raw, rng):
         chunks = iffparse.parse(raw)
     except iffparse.Malformed:
         return None
-    kind = rng.choice(("cval", "cval", "cval", "chdt", "slnk", "pdta", "cmid-param"))
+    kind = rng.choice(("cval", "cval", "cval", "chdt", "slnk", "slnk-free-last", "pdta", "cmid-param"))
     out = [[c[0], c[1]] for c in chunks]
     if kind == "cval":
         idx = [i for i, c in enumerate(out) if c[0] == b"CVAL"]
@@ -62,6 +62,14 @@ def mutate(raw, rng):
         vals = list(struct.unpack("<" + "i" * n, out[i][1]))
         vals[rng.randrange(n)] = rng.randint(-1, max(0, nmods - 1))
         out[i][1] = struct.pack("<" + "i" * n, *vals)
+    elif kind == "slnk-free-last":
+        # free the last incoming link of a module whose explicit slot chunk follows (stale slot left behind)
+        idx = [i for i, c in enumerate(out) if c[0] == b"SLNK" and len(c[1]) >= 8 and i + 1 < len(out) and out[i + 1][0] == b"SLnK"]
+        idx = idx or [i for i, c in enumerate(out) if c[0] == b"SLNK" and len(c[1]) >= 4]
+        if not idx:
+            return None
+        i = rng.choice(idx)
+        out[i][1] = out[i][1][:-4] + struct.pack("<i", -1)
     elif kind == "pdta":
         idx = [i for i, c in enumerate(out) if c[0] == b"PDTA" and len(c[1]) >= 8]
         if not idx:
